@@ -678,3 +678,14 @@ func CanonArgsFromJSON(args []Arg, values map[string]interface{}) (string, error
 
 // ColorValue is how thunder renders an enum result: the underlying Go value.
 func ColorValue(name string) int64 { return int64(colorIndex[name]) }
+
+// Snapshot returns a copy of the recorded resolver calls.
+func (w *World) Snapshot() map[string]interface{} {
+	w.mu.Lock()
+	defer w.mu.Unlock()
+	m := make(map[string]interface{}, len(w.Calls))
+	for k, v := range w.Calls {
+		m[k] = v
+	}
+	return m
+}
